@@ -310,7 +310,15 @@ def judge_span(c, rec):
         df["observed"] = o
     Rep = em.BillingReportingData if fam == "billing" else em.DailyReportingData
     with contextlib.redirect_stdout(io.StringIO()):
-        data = Rep(df, is_electricity_data=True)
+        try:
+            data = Rep(df, is_electricity_data=True)
+        except ValueError as e:
+            if "Billing data is not allowed" not in str(e):
+                raise
+            # a short span with holes is read as billing data by the daily class: acceptance is C10's subject
+            rec.note("data-class-rejects-short-span-with-holes")
+            rec.case(c, False, cls + ["input-rejected"])
+            return
         out = m.predict(data)
     dd = data.df
     key = "span/" + fam
